@@ -239,6 +239,37 @@ fn observe(w: &World, s: &Strand, whence: &str) {
                 format!("{} {whence}: context #{i} shows {got:?} directly but {got_erased:?} through the erased path", s.name),
             );
         }
+        // an observation made from inside an observation (an emitter or filter that looks at the ambient context
+        // itself, a closure handed to `with_current` that emits): the context is the same one there, and what is
+        // pushed and entered there sits on top of it
+        let (nested, pushed_inside) = w.ctxts[i].with_current(|_outer| {
+            let nested = read(&w.ctxts[i]);
+            let mut frame = Frame::push(w.ctxts[i], [("pushed_inside_an_observation", 1)]);
+            let inside = frame.with(|_| read(&w.ctxts[i]));
+            drop(frame);
+            (nested, inside)
+        });
+        if nested != want {
+            w.violate(
+                "ambient_reentrant",
+                format!("{} {whence}: inside a with_current callback context #{i} shows {nested:?}, innermost active frame says {want:?}", s.name),
+            );
+        }
+        let mut want_inside = want.clone();
+        want_inside.insert("pushed_inside_an_observation".to_string(), "1".to_string());
+        if pushed_inside != want_inside {
+            w.violate(
+                "ambient_reentrant",
+                format!("{} {whence}: a frame pushed and entered inside a with_current callback of context #{i} shows {pushed_inside:?}, expected {want_inside:?}", s.name),
+            );
+        }
+        let after = read(&w.ctxts[i]);
+        if after != want {
+            w.violate(
+                "ambient_reentrant",
+                format!("{} {whence}: after the nested observation context #{i} shows {after:?}, expected {want:?}", s.name),
+            );
+        }
         // lookups agree with enumeration
         for (k, v) in &want {
             let direct = w.ctxts[i].with_current(|p| p.get(k.as_str()).map(|v| v.to_string()));
